@@ -156,6 +156,9 @@ C05_AckOnce(k) == (ln(k).ev = "Ack" /\ ln(k).res = "ok") =>
    /\ t \in DOMAIN status[c] /\ status[c][t] = 0
    /\ status'[c][t] = (IF ln(k).ackcode = 0 THEN 1 ELSE 2)
    /\ rbal'[c] = rbal[c] + p.fee /\ held'[c] = held[c] - p.fee
+(* the commitment is removed only by an acknowledgement of exactly that packet: the packet the message carries is the *)
+(* packet that was sent (the stored commitment is the hash of its bytes), not another packet on the same path           *)
+C05_AckOfThatPacket(k) == (ln(k).ev = "Ack" /\ ln(k).res = "ok") => ln(k).truth.held
 C05_StatusOnce(k) == \A c \in Chains : \A t \in DOMAIN status[c] : status[c][t] # 0 => (t \in DOMAIN status'[c] /\ status'[c][t] = status[c][t])
 C05_RejectNoChange(k) == (ln(k).ev = "Ack" /\ ln(k).res # "ok") => Unchanged(k)
 
@@ -197,6 +200,7 @@ Judge(k) ==
      /\ Report(k, "C05.AckStable", C05_AckStable(k))
      /\ Report(k, "C05.CommitRemovedOnlyByAck", C05_CommitRemovedOnlyByAck(k))
      /\ Report(k, "C05.AckOnce", C05_AckOnce(k))
+     /\ Report(k, "C05.AckOfThatPacket", C05_AckOfThatPacket(k))
      /\ Report(k, "C05.StatusOnce", C05_StatusOnce(k))
      /\ Report(k, "C05.RejectNoChange", C05_RejectNoChange(k))
      /\ Report(k, "C06.OnlyRelayers", C06_OnlyRelayers(k))
